@@ -1,0 +1,7 @@
+//go:build !verif
+
+package column
+
+// verifYield marks a scheduling point for the verification harness; it does nothing
+// unless the package is built with the "verif" tag.
+func verifYield(point string, chunk uint32) {}
